@@ -1,39 +1,68 @@
 ------------------------------ MODULE Announce ------------------------------
 (* Station / programme / time / aspect announcements of the service decoder:
-   vbi_decode_vps and parse_bsd (src/packet.c), the XDS network-name branch of xds_decoder
-   (src/caption.c), vbi_chsw_reset (src/vbi.c), vbi_decode_wss_625 (src/wss.c).
+   vbi_decode_vps and parse_bsd / parse_8_30 (src/packet.c), the XDS network-name branch of xds_decoder
+   (src/caption.c), vbi_chsw_reset, vbi_event_enable, vbi_event_handler_register/_unregister/_add/_remove,
+   vbi_send_event (src/vbi.c), vbi_decode_wss_625 (src/wss.c).
 
    The network record is modelled as coded: one last-received value per carrier, ONE repeat
-   state ("cycle") shared by all carriers, the network id, and the reset that a change of the
-   identified station triggers.  The property C13 is stated separately (Faithful,
-   OnlyAfterRepeat, NetworkMeansChange, OneNetworkEvent, CacheKept, ChangeAnnounced, WssOnlyAfterRepeats) and
-   TLC checks it over all interleavings of the carriers.
+   state ("cycle") shared by all carriers, the network id, the VPS programme label stored at the first
+   reception of a CNI, and the reset that a change of the identified station triggers.  The list of
+   registered handlers with their event masks is part of the state: what is decoded depends on the
+   union of the masks, and a NEWLY activated event type resets the part of the state that feeds it
+   (vbi_event_enable) - these resets are the named parts NetReset / AspReset / PidReset of Enable.
+   The property C13 is stated separately (Faithful, OfThisReception, OnlyAfterRepeat, NetworkMeansChange,
+   OneNetworkEvent, NotAgainWhileSame, StationKept, CacheKept, CacheDropped, VpsLabelTwice, Gated,
+   WssOnlyAfterRepeats, AspectRevertOnlyOnChange) and TLC checks it over all interleavings of the carriers
+   and of the registrations.
 
    Values: a, b identify known stations, u is a code the station table does not know
    (network id 0), 0 = nothing received yet.  The XDS carrier identifies by a hash of the
-   name, i.e. every name is "known" but yields ids different from the CNI table.           *)
+   name, i.e. every name is "known" but yields ids different from the CNI table.
+   Payloads vary independently of the CNI: a PDC label (VPS: PIL, PTY, PCS audio; 8/30 format 2: LCI, LUF, PRF,
+   PCS, MI, PIL, PTY) or a local time (8/30 format 1: MJD, UTC, offset); "bad" is a payload the decoder must
+   refuse (8/30-2: uncorrectable Hamming error, 8/30-1: a time that is not BCD).                          *)
 EXTENDS Naturals, Sequences, FiniteSets, TLC
 
 CONSTANTS Carriers,        \* subset of {"vps", "p1", "p2", "xds"}
           Vals,            \* subset of {"a", "b", "u"}
-          WssWords,        \* WSS words used: "x", "y" (valid parity), "bad" (even parity)
+          Labels,          \* PDC labels the stations transmit on VPS and in 8/30 format 2, e.g. {"p", "q"}
+          Times,           \* local times transmitted in 8/30 format 1, e.g. {"t", "s"}
+          Bads,            \* {"bad"} or {}: damaged payloads of the two Teletext carriers
+          WssWords,        \* WSS words used: parity-valid words and "bad" (even parity)
           MaxRecv,
           UnknownOnce,     \* TRUE: a change to an unidentified station raises one event (repaired code)
           XdsGuard,        \* TRUE: XDS name path announces only a changed id (repaired code)
-          Calls            \* XDS call letters (Channel class, type 2) the stations send: subset of {"a", "b"}; {} = none
+          Calls,           \* XDS call letters (Channel class, type 2) the stations send: subset of {"a", "b"}; {} = none
+          Handlers,        \* handler slots (function, user_data), e.g. {"h1", "h2"}
+          InitMasks,       \* event masks handler h1 may be registered with before the stream starts
+          RegMasks,        \* event masks used by registrations in mid-stream
+          Apis,            \* subset of {"reg", "add"}: vbi_event_handler_register/_unregister or the deprecated _add/_remove
+          MaxReg           \* bound on the number of registrations in mid-stream
 
 VARIABLES last,      \* per carrier: value stored in the network record
           cycle,     \* shared repeat state: 0 nothing, 1 first reception, 2/3 announced
           nuid,      \* identified station ("0" = none/unknown)
+          vpid,      \* VPS label stored at the first reception of a CNI (vbi->vps_pid); "0" = cleared
           cache,     \* TRUE while the pages cached before the last station change are still there
-          evs,       \* events raised by the last reception: sequence of records
+          evs,       \* events raised by the last step: sequence of records
+          hmask,     \* per handler slot: its event mask ({} = not registered)
+          horder,    \* registered handlers in the order of registration (= order of delivery)
           prev,      \* ghost: per carrier the value received before this one
-          wlast, wrep, aspect,    \* WSS: last word, repeat count, announced aspect
+          vseen,     \* ghost: labels received on VPS since its CNI last differed from the one before
+          ann,       \* ghost: station id of the last NETWORK event ("none": no listener has been told one yet)
+          wlast, wrep, aspect,    \* WSS: last word, repeat count, announced aspect ("init" = none, aspect_source 0)
           wrun,                   \* ghost: length of the current run of identical WSS words
           xcall,                  \* XDS: stored call letters ("0" = none): the station id is computed from them when present
-          xrun,                   \* ghost: consecutive receptions of the same XDS name with no other XDS change in between
-          nrecv, lastAct
-vars == <<last, cycle, nuid, cache, evs, prev, wlast, wrep, aspect, wrun, xcall, xrun, nrecv, lastAct>>
+          xrun,                   \* ghost: consecutive receptions of the same XDS name with no other XDS change or NetReset in between
+          nrecv, nreg, lastAct
+vars == <<last, cycle, nuid, vpid, cache, evs, hmask, horder, prev, vseen, ann, wlast, wrep, aspect, wrun, xcall, xrun,
+          nrecv, nreg, lastAct>>
+
+NetTypes == {"NETWORK", "NETWORK_ID"}
+AspTypes == {"ASPECT", "PROG_INFO"}         \* both are fed by the programme info record that holds the announced aspect ratio
+Types == NetTypes \cup AspTypes \cup {"PROG_ID", "LOCAL_TIME", "TTX_PAGE", "CAPTION"}
+MaskOf(hm) == UNION {hm[h] : h \in Handlers}
+emask == MaskOf(hmask)                       \* vbi->event_mask
 
 Nuid(c, v) == IF v = "0" THEN "0"
               ELSE IF c = "xds" THEN (IF v = "u" THEN "Xu" ELSE IF v = "a" THEN "Xa" ELSE "Xb")
@@ -43,67 +72,102 @@ Nuid(c, v) == IF v = "0" THEN "0"
 XId(call, v) == IF call = "0" THEN Nuid("xds", v) ELSE IF call = "a" THEN "Ca" ELSE "Cb"
 IdOf(c, v, call) == IF c = "xds" THEN XId(call, v) ELSE Nuid(c, v)
 
-Init == /\ last = [c \in Carriers |-> "0"] /\ cycle = 0 /\ nuid = "0" /\ cache = TRUE /\ evs = <<>>
-        /\ prev = [c \in Carriers |-> "0"]
+PayloadsOf(c) == IF c = "vps" THEN Labels ELSE IF c = "p2" THEN Labels \cup Bads
+                 ELSE IF c = "p1" THEN Times \cup Bads ELSE {"-"}
+
+\* words with the same meaning (they differ in reserved bits only) announce the same aspect
+AspectOf(w) == IF w = "bad" THEN "abad" ELSE IF w = "x2" THEN "ax" ELSE "a" \o w
+
+Init == /\ last = [c \in Carriers |-> "0"] /\ cycle = 0 /\ nuid = "0" /\ vpid = "0" /\ evs = <<>>
+        /\ \E m \in InitMasks : hmask = [h \in Handlers |-> IF h = "h1" THEN m ELSE {}]
+        /\ horder = <<"h1">>
+        /\ cache = ("TTX_PAGE" \in hmask["h1"])          \* the sentinel page is transmitted first; only a Teletext handler makes it decoded
+        /\ prev = [c \in Carriers |-> "0"] /\ vseen = {} /\ ann = "none"
         /\ wlast = "none" /\ wrep = 0 /\ aspect = "init" /\ wrun = 0
         /\ xcall = "0" /\ xrun = 0
-        /\ nrecv = 0 /\ lastAct = [a |-> "init"]
+        /\ nrecv = 0 /\ nreg = 0 /\ lastAct = [a |-> "Init", m |-> hmask["h1"]]
 
-Ev(t, c, v, id, rec) == [t |-> t, c |-> c, v |-> v, nuid |-> id, cni |-> rec, call |-> IF c = "xds" THEN xcall ELSE "-"]
+Ev(t, c, v, l, id, rec) == [t |-> t, c |-> c, v |-> v, l |-> l, nuid |-> id, cni |-> rec, call |-> IF c = "xds" THEN xcall ELSE "-"]
 
 -----------------------------------------------------------------------------
-\* Hamming/BCD protected carriers announce their time / programme label on every reception
-Always(c, v) == IF c = "p1" THEN <<[t |-> "LOCAL_TIME", c |-> c, v |-> v, nuid |-> "-", cni |-> "-", call |-> "-"]>>
-                ELSE IF c = "p2" THEN <<[t |-> "PROG_ID", c |-> c, v |-> v, nuid |-> "-", cni |-> "-", call |-> "-"]>>
-                ELSE <<>>
+\* parse_8_30: the Hamming/BCD protected carriers announce their time / programme label on every reception - if somebody listens
+Always(c, v, l) == IF c = "p1" /\ "LOCAL_TIME" \in emask /\ l # "bad" THEN <<Ev("LOCAL_TIME", c, v, l, "-", "-")>>
+                   ELSE IF c = "p2" /\ "PROG_ID" \in emask /\ l # "bad" THEN <<Ev("PROG_ID", c, v, l, "-", "-")>>
+                   ELSE <<>>
 
-(* one received VPS line / packet 8/30 format 1 or 2 / completed XDS network name *)
-Recv(c, v) ==
-  /\ nrecv' = nrecv + 1 /\ lastAct' = [a |-> "Recv", c |-> c, v |-> v]
+\* the CNI of a packet 8/30 is looked at only while a handler wants network events (BSDATA_EVENTS), a VPS line and
+\* an XDS name always; a format 2 packet with an uncorrectable byte is dropped as a whole
+CniDecoded(c, l) == /\ c \in {"p1", "p2"} => emask \cap NetTypes # {}
+                    /\ ~(c = "p2" /\ l = "bad")
+
+LastAnn(es, old) == LET n == SelectSeq(es, LAMBDA e : e.t = "NETWORK") IN IF n = <<>> THEN old ELSE n[Len(n)].nuid
+
+(* the network identification part of a received VPS line / packet 8/30 format 1 or 2 / completed XDS network name *)
+RecvCni(c, v, l) ==
   /\ prev' = [prev EXCEPT ![c] = v]
-  /\ UNCHANGED <<wlast, wrep, aspect, wrun, xcall>>
+  /\ vseen' = IF c # "vps" THEN vseen ELSE IF prev[c] = v THEN vseen \cup {l} ELSE {l}
   /\ xrun' = IF c # "xds" THEN xrun ELSE IF prev[c] = v THEN xrun + 1 ELSE 1
+  /\ UNCHANGED wrun
   /\ IF v # last[c]
-     THEN /\ last' = [last EXCEPT ![c] = v] /\ cycle' = 1 /\ evs' = Always(c, v)
-          /\ UNCHANGED <<nuid, cache>>
-     ELSE IF cycle # 1 THEN evs' = Always(c, v) /\ UNCHANGED <<last, cycle, nuid, cache>>
+     THEN /\ last' = [last EXCEPT ![c] = v] /\ cycle' = 1 /\ evs' = Always(c, v, l)
+          /\ vpid' = IF c = "vps" THEN l ELSE vpid
+          /\ UNCHANGED <<nuid, cache, wlast, wrep, aspect>>
+     ELSE IF cycle # 1 THEN evs' = Always(c, v, l) /\ UNCHANGED <<last, cycle, nuid, vpid, cache, wlast, wrep, aspect>>
      ELSE LET id == IdOf(c, v, xcall)
               guard == IF c = "xds" THEN (XdsGuard => id # nuid) ELSE id # nuid
               reset == guard /\ nuid # "0"
               \* vbi_chsw_reset(vbi, 0): clears the whole network record and raises its own event
               wipe == reset /\ id = "0" /\ ~UnknownOnce
               rec == IF wipe THEN [x \in Carriers |-> "0"] ELSE last
-              e0 == IF wipe THEN <<Ev("NETWORK", c, "0", "0", rec)>> ELSE <<>>
-              e1 == IF guard THEN <<Ev("NETWORK", c, v, id, rec)>> ELSE <<>>
-              e2 == <<Ev("NETWORK_ID", c, v, IF guard THEN id ELSE nuid, rec)>>
-              e3 == IF c = "vps" THEN <<Ev("PROG_ID", c, v, "-", rec)>> ELSE <<>>   \* VPS label, confirmed with its CNI
-          IN /\ evs' = e0 \o e1 \o e2 \o e3 \o Always(c, v)
+              e0 == IF wipe THEN <<Ev("NETWORK", c, "0", "-", "0", rec)>> ELSE <<>>
+              \* vbi_chsw_reset: the aspect ratio announced for the old station is withdrawn (AspectRevert) and WSS starts over
+              ea == IF reset /\ aspect # "init" THEN <<Ev("ASPECT", "revert", "-", "-", "-", "adefault")>> ELSE <<>>
+              e1 == IF guard THEN <<Ev("NETWORK", c, v, "-", id, rec)>> ELSE <<>>
+              e2 == <<Ev("NETWORK_ID", c, v, "-", IF guard THEN id ELSE nuid, rec)>>
+              \* VPS label: announced with its CNI when it equals the one of the first reception, else stored
+              pdc == c = "vps" /\ "PROG_ID" \in emask
+              e3 == IF pdc /\ l = vpid THEN <<Ev("PROG_ID", c, v, l, "-", "-")>> ELSE <<>>
+          IN /\ evs' = e0 \o ea \o e1 \o e2 \o e3 \o Always(c, v, l)
              /\ nuid' = IF guard THEN id ELSE nuid
              /\ cache' = IF reset THEN FALSE ELSE cache
              /\ last' = rec
              /\ cycle' = IF c = "xds" THEN 3 ELSE 2
+             /\ vpid' = IF pdc /\ l # vpid THEN l ELSE vpid
+             /\ IF reset THEN wlast' = "none" /\ wrep' = 0 /\ aspect' = "init"
+                ELSE UNCHANGED <<wlast, wrep, aspect>>
+  /\ ann' = LastAnn(evs', ann)
+
+(* one received VPS line / packet 8/30 format 1 or 2 / completed XDS network name *)
+Recv(c, v, l) ==
+  /\ nrecv' = nrecv + 1 /\ lastAct' = [a |-> "Recv", c |-> c, v |-> v, l |-> l]
+  /\ UNCHANGED <<hmask, horder, nreg, xcall>>
+  /\ IF CniDecoded(c, l)
+     THEN RecvCni(c, v, l)
+     ELSE /\ evs' = Always(c, v, l)
+          /\ UNCHANGED <<last, cycle, nuid, vpid, cache, prev, vseen, ann, wlast, wrep, aspect, wrun, xrun>>
 
 (* a completed XDS "network call letters" packet.  As coded: changed letters make the stored network NAME forgotten, so
    that the next two name packets count as "changed, then repeated" and the id is computed again - from the new letters. *)
 RecvCall(v) ==
   /\ "xds" \in Carriers
   /\ nrecv' = nrecv + 1 /\ lastAct' = [a |-> "Call", v |-> v]
-  /\ evs' = <<>> /\ UNCHANGED <<nuid, cache, prev, wlast, wrep, aspect, wrun>>
+  /\ evs' = <<>> /\ UNCHANGED <<nuid, vpid, cache, hmask, horder, nreg, prev, vseen, ann, wlast, wrep, aspect, wrun>>
   /\ IF v # xcall
      THEN /\ xcall' = v /\ xrun' = 0
           /\ IF cycle # 1 THEN last' = [last EXCEPT !["xds"] = "0"] /\ cycle' = 0 ELSE UNCHANGED <<last, cycle>>
      ELSE UNCHANGED <<xcall, xrun, last, cycle>>
 
-(* the application caches pages of the station it is tuned to (sentinel for CacheKept) *)
-Refill == /\ ~cache /\ cache' = TRUE /\ evs' = <<>> /\ lastAct' = [a |-> "Refill"]
-          /\ UNCHANGED <<last, cycle, nuid, prev, wlast, wrep, aspect, wrun, xcall, xrun, nrecv>>
+(* the application caches pages of the station it is tuned to (sentinel for CacheKept); Teletext pages are decoded
+   only while a TTX_PAGE handler is registered *)
+Refill == /\ ~cache /\ "TTX_PAGE" \in emask
+          /\ cache' = TRUE /\ evs' = <<>> /\ lastAct' = [a |-> "Refill"]
+          /\ UNCHANGED <<last, cycle, nuid, vpid, hmask, horder, prev, vseen, ann, wlast, wrep, aspect, wrun, xcall, xrun, nrecv, nreg>>
 
-(* one received WSS line *)
-AspectOf(w) == IF w = "x" THEN "ax" ELSE IF w = "y" THEN "ay" ELSE "abad"
+(* one received WSS line (decoded with or without a listener) *)
 RecvWss(w) ==
   /\ nrecv' = nrecv + 1 /\ lastAct' = [a |-> "Wss", w |-> w]
   /\ wrun' = IF w = wlast THEN wrun + 1 ELSE 1
-  /\ UNCHANGED <<last, cycle, nuid, cache, prev, xcall, xrun>>
+  /\ UNCHANGED <<last, cycle, nuid, vpid, cache, hmask, horder, nreg, prev, vseen, ann, xcall, xrun>>
   /\ IF w # wlast
      THEN /\ wlast' = w /\ wrep' = 0 /\ evs' = <<>> /\ UNCHANGED aspect
      ELSE /\ wlast' = w
@@ -111,14 +175,54 @@ RecvWss(w) ==
           /\ IF wrep + 1 < 3 \/ w = "bad" \/ AspectOf(w) = aspect
              THEN evs' = <<>> /\ UNCHANGED aspect
              ELSE /\ aspect' = AspectOf(w)
-                  /\ evs' = <<[t |-> "ASPECT", c |-> "wss", v |-> w, nuid |-> "-", cni |-> AspectOf(w), call |-> "-"]>>
+                  /\ evs' = <<Ev("ASPECT", "wss", w, "-", "-", AspectOf(w))>>
 
-Next == \/ \E c \in Carriers, v \in Vals : Recv(c, v)
+-----------------------------------------------------------------------------
+(* vbi_event_enable(new mask): what a newly activated event type resets *)
+NewNet(old, new) == (new \ old) \cap NetTypes # {}
+Enable(new) ==
+  LET act == new \ emask IN
+  /\ evs' = <<>>
+  /\ IF act \cap NetTypes # {}                                     \* NetReset: the new listener shall learn the station
+     THEN last' = [c \in Carriers |-> "0"] /\ cycle' = 0 /\ nuid' = "0" /\ xcall' = "0" /\ ann' = "none" /\ xrun' = 0
+     ELSE UNCHANGED <<last, cycle, nuid, xcall, ann, xrun>>
+  /\ aspect' = IF act \cap AspTypes # {} /\ emask \cap AspTypes = {}    \* AspReset: ... and the aspect ratio, when nobody listened
+               THEN "init" ELSE aspect                               \* to programme info before
+  /\ vpid' = IF "PROG_ID" \in act THEN "0" ELSE vpid                 \* PidReset
+  /\ UNCHANGED <<cache, prev, vseen, wlast, wrep, wrun, nrecv>>
+
+(* vbi_event_handler_register / vbi_event_handler_add with a mask that is not empty *)
+Register(h, m, api) ==
+  /\ m # {} /\ m # hmask[h] /\ nreg < MaxReg
+  /\ nreg' = nreg + 1 /\ lastAct' = [a |-> "Register", h |-> h, m |-> m, api |-> api]
+  /\ hmask' = [hmask EXCEPT ![h] = m]
+  /\ horder' = IF hmask[h] # {} THEN horder ELSE Append(horder, h)
+  /\ Enable(MaskOf(hmask'))
+
+(* vbi_event_handler_unregister / vbi_event_handler_remove (also of a handler that is not registered) *)
+Unregister(h, api) ==
+  /\ nreg < MaxReg
+  /\ nreg' = nreg + 1 /\ lastAct' = [a |-> "Unregister", h |-> h, api |-> api]
+  /\ hmask' = [hmask EXCEPT ![h] = {}]
+  /\ horder' = SelectSeq(horder, LAMBDA x : x # h)
+  /\ Enable(MaskOf(hmask'))
+
+Next == \/ \E c \in Carriers, v \in Vals : \E l \in PayloadsOf(c) : Recv(c, v, l)
         \/ \E w \in WssWords : RecvWss(w)
         \/ \E v \in Calls : RecvCall(v)
         \/ Refill
+        \/ \E h \in Handlers, m \in RegMasks, api \in Apis : Register(h, m, api)
+        \/ \E h \in Handlers, api \in Apis : Unregister(h, api)
 Spec == Init /\ [][Next]_vars
 Bounded == nrecv < MaxRecv
+
+(* vbi_send_event: every raised event is handed to the handlers whose mask has its type, in the order of registration *)
+RECURSIVE Flat(_)
+Flat(s) == IF s = <<>> THEN <<>> ELSE Head(s) \o Flat(Tail(s))
+Delivered(es, order, hm) ==
+  Flat([i \in 1..Len(es) |->
+          LET hs == SelectSeq(order, LAMBDA h : es[i].t \in hm[h])
+          IN [j \in 1..Len(hs) |-> [h |-> hs[j], e |-> es[i]]]])
 
 -----------------------------------------------------------------------------
 (* C13 *)
@@ -127,27 +231,51 @@ NetId(s) == SelectSeq(s, LAMBDA e : e.t = "NETWORK_ID")
 
 \* payloads carry what was transmitted on the announcing carrier
 Faithful == \A i \in 1..Len(evs) :
-              evs[i].t \in {"NETWORK", "NETWORK_ID"} =>
+              evs[i].t \in NetTypes =>
                  /\ evs[i].cni[evs[i].c] = evs[i].v
                  /\ evs[i].nuid = IdOf(evs[i].c, evs[i].v, xcall)
 \* (action properties, checked as invariants over the pair (state, its last reception))
+\* every event carries the carrier, the identifier and the programme label / time of the very reception that raised it
+OfThisReception == [][\A i \in 1..Len(evs') :
+                        \/ evs'[i].c = "revert"
+                        \/ /\ lastAct'.a = "Wss" /\ evs'[i].t = "ASPECT" /\ evs'[i].v = lastAct'.w
+                        \/ /\ lastAct'.a = "Recv" /\ evs'[i].c = lastAct'.c /\ evs'[i].v = lastAct'.v
+                           /\ evs'[i].t \in {"PROG_ID", "LOCAL_TIME"} => evs'[i].l = lastAct'.l /\ evs'[i].l # "bad"
+                           /\ evs'[i].t = "PROG_ID" => evs'[i].c \in {"vps", "p2"}
+                           /\ evs'[i].t = "LOCAL_TIME" => evs'[i].c = "p1"]_vars
 \* an identifier is announced only on a reception that repeats the previous one of its carrier
-OnlyAfterRepeat == [][\A i \in 1..Len(evs') : evs'[i].t \in {"NETWORK", "NETWORK_ID"} =>
+OnlyAfterRepeat == [][\A i \in 1..Len(evs') : evs'[i].t \in NetTypes =>
                         /\ lastAct'.a = "Recv" /\ prev[lastAct'.c] = lastAct'.v /\ evs'[i].v = lastAct'.v]_vars
+\* a VPS programme label (no error protection) is announced only when the same label was received before with this CNI
+VpsLabelTwice == [][\A i \in 1..Len(evs') : (evs'[i].t = "PROG_ID" /\ evs'[i].c = "vps") =>
+                        /\ prev["vps"] = evs'[i].v /\ evs'[i].l \in vseen]_vars
 \* a network event means the identified station changed, and there is at most one per change
 NetworkMeansChange == [][Len(Net(evs')) > 0 => nuid' # nuid]_vars
 OneNetworkEvent    == [][Len(Net(evs')) <= 1]_vars
+\* no listener is told the station it was told last
+NotAgainWhileSame  == [][\A i \in 1..Len(evs') : evs'[i].t = "NETWORK" => evs'[i].nuid # ann]_vars
+\* registrations: the identified station, the repeat state and the cache survive unless a network event type was NEWLY
+\* activated; no registration raises an event
+StationKept == [][lastAct'.a \in {"Register", "Unregister"} =>
+                    /\ evs' = <<>> /\ cache' = cache
+                    /\ ~NewNet(emask, MaskOf(hmask')) => UNCHANGED <<last, cycle, nuid, xcall, ann>>]_vars
 \* the cache is dropped only when the identified station changes, and then it is dropped
-CacheKept    == [][(cache /\ ~cache') => (nuid' # nuid /\ nuid # "0")]_vars
-CacheDropped == [][(nuid # "0" /\ nuid' # nuid) => ~cache']_vars
+CacheKept    == [][(cache /\ ~cache') => (lastAct'.a = "Recv" /\ nuid' # nuid /\ nuid # "0")]_vars
+CacheDropped == [][(lastAct'.a = "Recv" /\ nuid # "0" /\ nuid' # nuid) => ~cache']_vars
+\* programme label and local time are decoded for listeners only
+Gated == [][\A i \in 1..Len(evs') : evs'[i].t \in {"PROG_ID", "LOCAL_TIME"} => evs'[i].t \in emask]_vars
 \* a single deviating reception never announces the deviating value: it is never a repeat
 \* (covered by OnlyAfterRepeat); and after v v w v v the station is still v without NETWORK event
 \* WSS: announced only with valid parity, after at least three identical repeats, not again while unchanged
-WssOnlyAfterRepeats == [][\A i \in 1..Len(evs') : evs'[i].t = "ASPECT" =>
+WssOnlyAfterRepeats == [][\A i \in 1..Len(evs') : (evs'[i].t = "ASPECT" /\ evs'[i].c # "revert") =>
                             /\ lastAct'.a = "Wss" /\ lastAct'.w # "bad" /\ wrun' >= 4
                             /\ evs'[i].cni = AspectOf(lastAct'.w) /\ aspect # aspect']_vars
+\* the announced aspect ratio is withdrawn only together with a change of the identified station, once
+AspectRevertOnlyOnChange == [][\A i \in 1..Len(evs') : evs'[i].c = "revert" =>
+                                 /\ nuid' # nuid /\ nuid # "0" /\ aspect # "init" /\ aspect' = "init" /\ ~cache']_vars
 \* XDS alone: when the same name keeps arriving (three receptions with no other XDS change in between) the identified
 \* station is the transmitted one - a change of the call letters under an unchanged name is announced too
 XdsSettles == (Carriers = {"xds"} /\ xrun >= 3) => nuid = XId(xcall, prev["xds"])
-TypeOK == cycle \in 0..3 /\ wrep \in 0..3
+TypeOK == /\ cycle \in 0..3 /\ wrep \in 0..3 /\ \A h \in Handlers : hmask[h] \subseteq Types
+          /\ \A h \in Handlers : (hmask[h] # {}) <=> (\E i \in 1..Len(horder) : horder[i] = h)
 =============================================================================
